@@ -159,6 +159,12 @@ func (table Table) encInfo() ([]glyph.ID, int, int) {
 			panic("invalid coverage table")
 		}
 	}
+	for i, gid := range rev {
+		// every index 0, ..., n-1 must be used exactly once
+		if j, ok := table[gid]; !ok || j != i {
+			panic("invalid coverage table")
+		}
+	}
 
 	format1Length := 4 + 2*len(table)
 
